@@ -15,7 +15,7 @@ META = {
              "sequence generator; distinct by input hash; non-trivial = a derived description (not one of the three shipped layouts themselves)"),
     "assumptions": ["required parking from the independent frequency model of C16; device edges and neighbours from the Surface-17 layer"],
     "floors": {
-        "quick": {"shipped_layouts": 3, "layers_checked": 7000, "derived_descriptions": 1900, "composite_descriptions": 300, "base_reread_after_composite": 300, "generated_layouts": 1, "generator_calls": 20, "required_parking_queries": 50000},
+        "quick": {"composites_with_two_leading_descriptions": 60, "shipped_layouts": 3, "layers_checked": 7000, "derived_descriptions": 1900, "composite_descriptions": 300, "base_reread_after_composite": 300, "generated_layouts": 1, "generator_calls": 20, "required_parking_queries": 50000},
         "thorough": {"shipped_layouts": 3, "layers_checked": 70000, "derived_descriptions": 19000, "composite_descriptions": 3000},
     },
 }
@@ -119,6 +119,7 @@ def gen_derived(rng: random.Random) -> Dict[str, Any]:
             "exclude_gate_qubits": [q for q in involved if rng.random() < 0.1],
             "only_required_parking": rng.random() < 0.5,
             "leading_gate": rng.random() < 0.3,
+            "small_base": [rng.randrange(100)] if rng.random() < 0.5 else None,
         }
     return inp
 
@@ -162,6 +163,21 @@ def check_derived(dev: Device, inp: Dict[str, Any], acc: Acc):
             _check_description(dev, lay, desc, involved, inp.get("index_map"), acc, case, excluded_edges=set(), excluded_qubits=set(), dynamic_parking=True)
         if [layer_sets(layer) for layer in cdesc.gate_sequences] != comp_first:
             acc.finding("derived/composite-unstable", "a composite description answers differently when asked again", case, None)
+        # a composite that is based on (and reads out) a SUB-chain while its gates are led by the description of the whole segment: its
+        # qubits are the union, gates and parks those of the leading gate description (seeded change C17-r13: the qubits contributed by the
+        # leading gate description were skipped whenever a leading readout description was set as well)
+        if comp.get("small_base") and len(involved) >= 5:
+            lo = comp["small_base"][0] % ((len(involved) - 3) // 2 + 1) * 2
+            small = involved[lo:lo + 3]
+            small_desc = RepetitionCodeDescription.from_connectivity(involved_qubit_ids=[QubitIDObj(q) for q in small], connectivity=lay)
+            order = small + [q for q in involved if q not in small]
+            cdesc2 = CompositeRepetitionCodeDescription(
+                _base_description=small_desc, _qubit_index_map={QubitIDObj(q): i for i, q in enumerate(order)}, _connectivity=lay,
+                _leading_readout_description=small_desc, _leading_gate_description=desc,
+                _only_required_parking_operations=comp["only_required_parking"])
+            acc.count("composites_with_two_leading_descriptions")
+            _check_description(dev, lay, cdesc2, order, None, acc, case, excluded_edges=set(), excluded_qubits=set(),
+                               dynamic_parking=comp["only_required_parking"], composite=True)
 
 
 def _check_description(dev: Device, lay, desc, involved: List[str], index_map, acc: Acc, case, excluded_edges: Set[frozenset], excluded_qubits: Set[str],
